@@ -517,6 +517,7 @@ func JSONGetActorEndpoints(val *fastjson.Value, prop string) *Endpoints {
 	e.SharedInbox = JSONGetURIItem(val, "sharedInbox")
 	e.ProvideClientKey = JSONGetURIItem(val, "provideClientKey")
 	e.SignClientKey = JSONGetURIItem(val, "signClientKey")
+	e.ProxyURL = JSONGetURIItem(val, "proxyUrl")
 
 	return &e
 }
